@@ -90,7 +90,7 @@ ANCHORS = [
 ]
 FLOORS = {
     "quick": {"evaluations": 450, "setconf_lines_decoded": 800, "quiet_checks": 2000, "saves_rejected": 130,
-              "reads_compared": 1300, "second_save_checks": 600, "midack_edits": 80, "inplace_ops": 500,
+              "reads_compared": 1300, "second_save_checks": 600, "midack_edits": 80, "midack_same_length_edits_of_a_list_in_flight": 10, "inplace_ops": 500,
               "escaped_values_decoded": 80, "assigned_from_other_option": 150, "overlapping_saves": 120,
               "overlap_outcomes_checked": 50, "invalid_assignments": 100, "invalid_assignments_on_pending_option": 25,
               "foreign_events": 150, "foreign_events_on_pending_option": 40, "crlf_values_decoded": 40, "held_object_edits": 20, "marker_like_values_runtime": 60,
@@ -839,6 +839,16 @@ def gen_case(rnd, mode):
         inflight = dict(m.pending)
         assigned = [n for n, hv in inflight.items() if hv[0] == "assign"]
         ed = gen_edit(rnd, m, exclude_assigned_inflight=assigned)
+        # in a third of the cases the edit made while the SETCONF is in flight is aimed at a list that is itself in
+        # flight as an in-place edit, and keeps its length (item replacement): 'not edited since' cannot be told
+        # from the length
+        same_len = [n for n, hv in inflight.items() if hv[0] == "inplace" and n not in m.shadow and n not in m.fuzzy
+                    and m.kind(n) != "scalar" and len(m.base(n)) > 0]
+        if same_len and rnd.random() < 0.35:
+            n = rnd.choice(same_len)
+            ed = {"op": "inplace", "name": CT.anycase(rnd, n), "opt": n, "method": "setitem",
+                  "args": [rnd.randrange(-len(m.base(n)), len(m.base(n))), gen_elem(rnd, m.types[n])],
+                  "same_length_on_inflight_list": True}
         reply = rnd.choice(["ok", "ok", "ok", 513])
         steps.append({"op": "save_edit_ack", "reply": reply, "edit": ed})
         m.edit(ed)
@@ -1468,6 +1478,8 @@ class Run(object):
                 if st["op"] == "save_edit_ack":
                     ed = st["edit"]
                     rec.count("midack_edits")
+                    if ed.get("same_length_on_inflight_list"):
+                        rec.count("midack_same_length_edits_of_a_list_in_flight")
                     if wrote:
                         self.do_edit(ed, cfg, link, where="between-save-and-ack")
                     else:
